@@ -98,6 +98,9 @@ func Load(repo string, buildFlags []string, env []string) (*Engine, error) {
 			for _, pe := range p.Errors {
 				errs = append(errs, pe.Error())
 			}
+			if p.IllTyped && len(p.Errors) == 0 {
+				errs = append(errs, p.PkgPath+": ill-typed (an imported package failed to type-check)")
+			}
 		}
 	})
 	if len(errs) > 0 {
